@@ -21,6 +21,7 @@ import (
 	"fmt"
 	"os"
 	"os/exec"
+	"path/filepath"
 	"strconv"
 	"strings"
 
@@ -90,6 +91,7 @@ func runOne(s script, seed uint64, w *traceWriter) {
 		if s.lines != nil {
 			r.playScript(s.lines)
 		} else {
+			r.random = true
 			r.playRandom(vc.NewRng(seed).Fork(uint64(s.idx) + 1))
 		}
 	}()
@@ -290,7 +292,7 @@ func (r *run) playRandom(g *vc.Rng) {
 			switch {
 			case k == 1 && form < 5:
 				top = bodies[0]
-			case k == 1 && form < 6 && !toplevelGzipBreaks(bodies[0]):
+			case k == 1 && form < 6:
 				top = &bodySpec{op: "gz", inner: bodies[0]}
 			default:
 				top = &bodySpec{op: "cont"}
@@ -315,13 +317,6 @@ func (r *run) playRandom(g *vc.Rng) {
 		}
 	}
 	_ = total
-}
-
-// A vector result inside a gzip_packed that wraps the whole rpc_result cannot be given its
-// hints by the client (it would have to decompress before it can see req_msg_id); the random
-// generator leaves that combination to the dedicated script (see lib/props/client_common.py).
-func toplevelGzipBreaks(b *bodySpec) bool {
-	return os.Getenv("VERIF_C09_TOPGZ_VEC") == "" && (b.kind == "vecbare" || b.kind == "vecobj")
 }
 
 func main() {
@@ -368,6 +363,7 @@ func worker(mode, arg string, from int, outPath string) {
 		runOne(ss[i], seed, w)
 	}
 	f.Close()
+	os.RemoveAll(filepath.Join(os.TempDir(), fmt.Sprintf("verif-c09-%d", os.Getpid())))
 }
 
 func supervise(mode, arg, outPath string) {
@@ -380,6 +376,9 @@ func supervise(mode, arg, outPath string) {
 		cmd.Stderr = &errb
 		cmd.Stdout = os.Stdout
 		err := cmd.Run()
+		if cmd.Process != nil {
+			os.RemoveAll(filepath.Join(os.TempDir(), fmt.Sprintf("verif-c09-%d", cmd.Process.Pid)))
+		}
 		// find how far it got
 		lastB, lastE := -1, -1
 		data, _ := os.ReadFile(outPath)
